@@ -35,6 +35,8 @@ func (db *db) set(id int, key string, tree *Tree) {
 		Key:  key,
 		tree: tree,
 	}
+	// A nil tree must fail here, before the registry is locked and changed.
+	hsum := tree.hsum
 	db.mux.Lock()
 	var idx int
 	if idx = db.getIdxLF(id, key); idx >= 0 && idx < len(db.tpl) {
@@ -56,8 +58,8 @@ func (db *db) set(id int, key string, tree *Tree) {
 	if key != "-1" {
 		db.idxKey[key] = idx
 	}
-	if _, ok := db.idxHash[tree.hsum]; !ok {
-		db.idxHash[tree.hsum] = idx
+	if _, ok := db.idxHash[hsum]; !ok {
+		db.idxHash[hsum] = idx
 	}
 	db.mux.Unlock()
 }
